@@ -56,7 +56,7 @@ type report struct {
 	SampleObs   []string `json:"sample_obs,omitempty"`
 	SampleTrace []string `json:"sample_trace,omitempty"`
 	OutcomeList []string `json:"outcome_list,omitempty"`
-	Extra       map[string]any `json:"extra,omitempty"`
+	Extra       map[string]int64 `json:"extra,omitempty"`
 }
 
 type knownFinding struct {
@@ -241,6 +241,7 @@ func main() {
 
 	// 4. evidence
 	var execs, nodes, steps, outcomes int
+	var inputs int64
 	exhaustive := true
 	var table []map[string]any
 	var caps []string
@@ -263,6 +264,9 @@ func main() {
 		}
 		for k, v := range r.Extra {
 			row[k] = v
+			if k == "inputs" {
+				inputs += v
+			}
 		}
 		table = append(table, row)
 		if len(r.SampleTrace) > 0 && len(samples) < 2 {
@@ -288,7 +292,8 @@ func main() {
 			"states":                        max(nodes, 1),
 			"transitions":                   max(steps, 1),
 			"traces_validated_against_impl": execs,
-			"evaluations":                   execs,
+			"evaluations":                   execs + int(inputs),
+			"inputs_enumerated":             inputs,
 			"distinct_nontrivial":           outcomes,
 			"rule": "every execution is a run of the real (AST-instrumented) goat code under the vsched cooperative scheduler inside a synctest bubble; " +
 				"states = distinct nodes of the schedule tree visited at the largest completed bound, transitions = scheduling steps executed (including replayed prefixes), " +
